@@ -100,6 +100,10 @@ pub proof fn axiom_buint_cmp<const N: usize>(a: BUint<N>, b: BUint<N>)
         a.partial_cmp_spec(&b) == Some(if uv(a) < uv(b) { core::cmp::Ordering::Less } else if uv(a) == uv(b) { core::cmp::Ordering::Equal } else { core::cmp::Ordering::Greater }),
 {}
 
+/// bnum integers are `Copy`; their derived `Clone` is the identity
+pub assume_specification<const N: usize> [ <BUint<N> as core::clone::Clone>::clone ] (a: &BUint<N>) -> (r: BUint<N>)
+    ensures r == *a;
+
 /// vstd's array clone yields `cloned` elements; for u64 that is equality
 pub proof fn lemma_array_clone_u64<const N: usize>(a: [u64; N], b: [u64; N])
     requires forall|i: int| 0 <= i < N ==> vstd::pervasive::cloned::<u64>(#[trigger] a@[i], b@[i])
@@ -134,6 +138,22 @@ pub assume_specification<const N: usize> [ <BUint<N> as core::convert::From<u64>
 
 
 /// bit length and value: 2^(bits-1) <= x < 2^bits for x > 0
+pub proof fn lemma_bitlen_le(x: nat, k: nat)
+    requires x < vstd::arithmetic::power2::pow2(k)
+    ensures bitlen(x) <= k
+    decreases k
+{
+    if x > 0 {
+        if k == 0 {
+            vstd::arithmetic::power2::lemma2_to64();
+        } else {
+            vstd::arithmetic::power2::lemma_pow2_unfold(k);
+            vstd::arithmetic::div_mod::lemma_fundamental_div_mod(x as int, 2);
+            lemma_bitlen_le(x / 2, (k - 1) as nat);
+        }
+    }
+}
+
 pub proof fn lemma_bitlen_lower(x: nat)
     requires x > 0
     ensures vstd::arithmetic::power2::pow2((bitlen(x) - 1) as nat) <= x
